@@ -1,7 +1,11 @@
 import Tx3Proofs.C06
+import Tx3Proofs.C06Reduce
 #print axioms Tx3.Expr.C06_reported_complete
 #print axioms Tx3.Expr.C06_closes
 #print axioms Tx3.C06_tx_closes
 #print axioms Tx3.C06_tx_reported_complete
 #print axioms Tx3.C06_missing_arg
 #print axioms Tx3.C06_no_missing_arg
+#print axioms Tx3.reduce_closed
+#print axioms Tx3.C06_reduce_keeps_closed
+#print axioms Tx3.C06_closes_after_reduce
